@@ -100,7 +100,8 @@ CHECKS["C09"] = dict(
          "(61-bit field); batch sizes 8-256, block lengths 1-4, all-zero / all-one / alternating / random choices, inputs 0, 1, -1 and random. The single-leaf deviation matrix over both protocols' "
          "messages shows that altering the multiplier's check values (aTilde, eta, mu) makes Bob abort and that nothing crashes.",
     note="VSOT, the SoftSpoken extension (seeded by a real VSOT batch) and rvole/softspoken run on secp256k1 and P-256 with both parties honest (family ProdProto: receiver output = chosen sender message for every instance, the two messages differ, "
-         "c + d = a * b by math/big); their tamper matrix is not built (the abort clause is decided on ecbbot / rvole-bbot only). Trusted: TLC, ProtoCore / ProdTrace, the toy group.",
+         "c + d = a * b by math/big) and with one wire message altered in flight (every byte-string leaf class and every array of every message, read from the code's own CBOR: ProdTrace.OtDevOK requires that the run does not "
+         "complete, nothing panics and the first abort is at or after the altered message; two honest endpoints, so whoever notices first aborts). Trusted: TLC, ProtoCore / ProdTrace, the toy group.",
     design_ref="DESIGN.md section 2, C09",
 )
 
